@@ -533,6 +533,8 @@ def run(ctx):
         ("omeng", "omen_guesser_case", "check_omen_guesser", G["omeng"]),
         ("omens", "omen_scorer_case", "check_omen_scorer", G["omens"]),
         ("cfg", "list (N * list (str * N)) * list str", "check_config_lists", G["cfg"])], per=60)
+    import writer_tie
+    corr = writer_tie.obligations(["save", "config"]) + corr
     # lower-casing (alpha values are stored lower-cased) cannot create a TAB or a line break: sweep of the interpreter
     lbt = set(C["linebreak"]) | {9}
     bad_lower = [c for c in range(0x110000) if c not in lbt and any(ord(d) in lbt for d in chr(c).lower())]
